@@ -129,6 +129,13 @@ type Run struct {
 	OnEvent   func(owner int, e recpr.Event)
 	SettleErr [2]error
 	Log       []string
+	// Gate, if set, runs in the update handler of party `owner` before it answers (the library
+	// holds that party's channel lock meanwhile).
+	Gate func(owner int, cur *channel.State, u client.ChannelUpdate)
+	// SkipRest makes Payments stop issuing further steps (set by hooks).
+	SkipRest bool
+	// Step is the index of the main step being executed (-1 outside).
+	Step int
 }
 
 type decision struct {
@@ -153,7 +160,7 @@ func isTimeout(err error) bool {
 
 // New prepares a world for the scenario.
 func New(rng *rand.Rand, sc Scenario) *Run {
-	r := &Run{Sc: sc, pending: map[string][]decision{}}
+	r := &Run{Sc: sc, pending: map[string][]decision{}, Step: -1}
 	r.W = party.NewWorld(rng, sc.Assets, sc.Noise)
 	r.P[0], r.P[1] = r.W.NewParty("A", 1000), r.W.NewParty("B", 1000)
 	for i := range r.P {
@@ -179,6 +186,9 @@ func New(rng *rand.Rand, sc Scenario) *Run {
 			return d.accept, func() {
 				for j := 0; j < d.delay; j++ {
 					runtime.Gosched()
+				}
+				if r.Gate != nil {
+					r.Gate(i, cur, u)
 				}
 			}
 		})
@@ -270,24 +280,29 @@ func (r *Run) pay(chs [2]*client.Channel, st Step, final bool) {
 // Payments runs the payment steps (and the sub-channel, if any).
 func (r *Run) Payments() bool {
 	for i, st := range r.Sc.Steps {
-		if r.Sc.Sub != nil && r.Sc.Sub.After == i {
+		if r.Sc.Sub != nil && r.Sc.Sub.After == i && !r.SkipRest {
 			if !r.subChannel() {
 				return false
 			}
 		}
 		r.hook(fmt.Sprintf("before-step-%d", i))
+		if r.SkipRest {
+			return true
+		}
+		r.Step = i
 		r.pay(r.Ch, st, false)
+		r.Step = -1
 		if r.Failed != "" {
 			return false
 		}
 	}
-	if r.Sc.Sub != nil && r.Sc.Sub.After >= len(r.Sc.Steps) {
+	if r.Sc.Sub != nil && r.Sc.Sub.After >= len(r.Sc.Steps) && !r.SkipRest {
 		if !r.subChannel() {
 			return false
 		}
 	}
 	r.hook("after-steps")
-	if r.Sc.FinalLast {
+	if r.Sc.FinalLast && !r.SkipRest {
 		// a final state: a zero payment by A with the final flag, always accepted
 		r.pay(r.Ch, Step{Who: 0, Asset: 0, Amount: 0, Accept: true}, true)
 		if r.Failed != "" {
@@ -328,6 +343,9 @@ func (r *Run) subChannel() bool {
 	}
 	r.logf("sub-channel %x opened", sch.ID())
 	r.hook("after-sub-open")
+	if r.SkipRest {
+		return true
+	}
 	for _, st := range sub.Steps {
 		r.pay(r.SubCh, st, false)
 		if r.Failed != "" {
@@ -335,7 +353,7 @@ func (r *Run) subChannel() bool {
 		}
 	}
 	r.hook("after-sub-steps")
-	if !sub.Close {
+	if !sub.Close || r.SkipRest {
 		return true
 	}
 	// finalize (participant 0 proposes) and settle into the parent: both sides call Settle
@@ -369,14 +387,25 @@ func (r *Run) subChannel() bool {
 func (r *Run) Settle() {
 	r.hook("before-settle")
 	settle := func(i int) {
-		ctx, cancel := r.P[i].Ctx()
-		defer cancel()
-		err := r.Ch[i].Settle(ctx, r.Sc.Secondary[i])
+		// A Settle call can fail for transient reasons (e.g. the adjudicator event of a
+		// sub-channel has not reached the client yet); like a user, retry a few times.
+		var err error
+		for try := 0; try < 4; try++ {
+			ctx, cancel := r.P[i].Ctx()
+			err = r.Ch[i].Settle(ctx, r.Sc.Secondary[i])
+			cancel()
+			r.logf("%s.Settle: %v", r.P[i].Name, err)
+			if err == nil || isTimeout(err) {
+				break
+			}
+			time.Sleep(2 * time.Millisecond)
+		}
+		r.mu.Lock()
 		r.SettleErr[i] = err
 		if isTimeout(err) {
 			r.TimedOut = true
 		}
-		r.logf("%s.Settle: %v", r.P[i].Name, err)
+		r.mu.Unlock()
 	}
 	switch r.Sc.SettleOrder {
 	case 0:
